@@ -358,10 +358,8 @@ func oneLine(s string) string {
 func runFuzz(id string, fz fuzzCfg, common []string) procResult {
 	// Native fuzzing needs `go test` (not a pre-built binary) so that the
 	// coverage-instrumented build and the worker protocol are set up.
-	cacheDir := filepath.Join(root, ".work", id, "fuzzcache")
-	os.MkdirAll(cacheDir, 0o755)
 	args := []string{"test", "-tags", "verif", "-run", "^$", "-fuzz", "^" + fz.Target + "$",
-		"-fuzztime", strconv.Itoa(fz.Seconds) + "s", "-test.fuzzcachedir", cacheDir,
+		"-fuzztime", strconv.Itoa(fz.Seconds) + "s",
 		"./checks/" + strings.ToLower(id)}
 	if mf := os.Getenv("VERIF_MODFILE"); mf != "" {
 		args = append(args[:1], append([]string{"-modfile", mf}, args[1:]...)...)
